@@ -366,22 +366,29 @@ const (
 // the budget, at a rate <= MaxFeeRate and <= the ceiling, never below the
 // previously published rate, the first one at no less than the relay floor,
 // and from one block before the deadline on at the ceiling.
-func VerifC18Publish() { c18Publish(c18PubMain) }
+func VerifC18Publish() { c18Publish(c18PubMain, 1) }
+
+// VerifC18PublishT: thorough tier, up to two fee-related mempool rejections.
+func VerifC18PublishT() { c18Publish(c18PubMain, 2) }
 
 // VerifC18FindPublishAboveMax: the same flow on the complementary region. On
 // the unchanged tree this reports the CANDIDATE FINDING of NOTES.md at the
 // publisher level (a sweep published above MaxFeeRate).
-func VerifC18FindPublishAboveMax() { c18Publish(c18PubFinding) }
+func VerifC18FindPublishAboveMax() { c18Publish(c18PubFinding, 0) }
 
-func c18Publish(region int) {
+func c18Publish(region int, maxRejects int) {
 	c18PubConfig()
 	c18FeeFnConfig()
 	vOverflow("github.com/lightningnetwork/lnd/sweep.c18TxFee")
 	reqMask := vChoice("req", 2)
 	ins, raw := c18Inputs(1, reqMask)
-	budget := btcutil.Amount(vI64("budget"))
+	// The budget is one of a few concrete values here (it is symbolic in
+	// VerifC18Create and VerifC18MaxRate): with a symbolic budget the ceiling
+	// is a float64 function of the budget that later meets the integer product
+	// rate*weight/1000 in the budget guard, which no solver decides (NOTES.md).
+	budgets := []btcutil.Amount{0, 1000, 5_000_000, 40_000_000_000}
+	budget := budgets[vChoice("budgetK", len(budgets))]
 	maxRate := chainfee.SatPerKWeight(vI64("maxFeeRate"))
-	vAssume(budget >= 0 && int64(budget) <= c18MaxSat)
 	vAssume(maxRate >= 0 && int64(maxRate) < c18MaxRate)
 	est := &c18Est{
 		rate:  chainfee.SatPerKWeight(vI64("estRate")),
@@ -423,8 +430,8 @@ func c18Publish(region int) {
 	)
 	w := &c18Wallet{}
 	w.verdict = func() error {
-		// at most two fee-related rejections per flow, then arbitrary
-		if rejects < 2 {
+		// at most maxRejects fee-related rejections per flow, then accept
+		if rejects < maxRejects {
 			switch vChoice("verdict", 3) {
 			case 1:
 				rejects++
@@ -473,14 +480,20 @@ func c18Publish(region int) {
 	vAssert(res.Fee <= budget && res.FeeRate <= ceiling, "initial result: fee <= budget, rate <= ceiling")
 
 	// --- one block beat (handleFeeBumpTx without the result plumbing) ---
-	adv := int32(vChoice("adv", 4)) // 0: same height again, 1: next block, 2..3: skipped blocks
-	if dist >= 1008 {
-		// far deadline: also jump to one block before the deadline
-		if adv == 3 {
-			adv = dist - 1
-		}
+	// 0: the same height again, 1: the next block, 2: a skip to one block
+	// before the deadline, 3: a skip to one block past the deadline
+	switch vChoice("adv", 4) {
+	case 0:
+	case 1:
+		height = h0 + 1
+	case 2:
+		height = deadline - 1
+	case 3:
+		height = deadline + 1
 	}
-	height = h0 + adv
+	if height < h0 {
+		vAssume(false)
+	}
 	t.currentHeight.Store(height)
 	increased, ierr := r.feeFunction.IncreaseFeeRate(calcCurrentConfTarget(height, deadline))
 	if height >= deadline-1 {
